@@ -277,6 +277,16 @@ func (h *FBDNSDB) ServeDNSWithRCODE(ctx context.Context, w dns.ResponseWriter, r
 		h.stats.IncrementCounter("DNS_response.refused")
 		m := new(dns.Msg)
 		m.SetRcode(r, dns.RcodeRefused)
+		if r.IsEdns0() != nil {
+			// echo the client subnet option like every other response does
+			o = new(dns.OPT)
+			o.Hdr.Name = "."
+			o.Hdr.Rrtype = dns.TypeOPT
+			if ecs != nil {
+				o.Option = append(o.Option, ecs)
+			}
+			m.Extra = append(m.Extra, o)
+		}
 		// does not matter if this write fails
 		return h.writeAndLog(state, m, ecs)
 	}
